@@ -466,7 +466,21 @@ class PVLEncoder(object):
             return True
 
         tok = Token(s, grammar=self.grammar, decoder=self.decoder)
-        return not tok.is_unquoted_string()
+        if len(s) == 0 or not tok.is_unquoted_string():
+            return True
+
+        return not self._decodes_to_itself(s)
+
+    def _decodes_to_itself(self, s: str) -> bool:
+        """Returns true if this encoder's decoder would read the unquoted
+        text *s* back as the identical string, false if it would read
+        something else (a keyword in any letter case, a number, ...)
+        or would not accept it as a value at all.
+        """
+        try:
+            return self.decoder.decode_simple_value(s) == s
+        except ValueError:
+            return False
 
     def encode_string(self, value) -> str:
         """Returns a ``str`` formatted as a PVL String based
@@ -635,7 +649,12 @@ class ODLEncoder(PVLEncoder):
 
         Overrides parent function.
         """
-        return not self.decoder.is_identifier(s)
+        if not self.decoder.is_identifier(s):
+            return True
+
+        # Identifiers that would be read back as something else (reserved
+        # keywords like END or NULL, or text like inf and nan) need quotes.
+        return not self._decodes_to_itself(s)
 
     def is_assignment_statement(self, s) -> bool:
         """Returns true if *s* is an ODL Assignment Statement, false otherwise.
@@ -751,7 +770,7 @@ class ODLEncoder(PVLEncoder):
         """Extends parent function by appropriately quoting Symbol
         Strings.
         """
-        if self.decoder.is_identifier(value):
+        if not self.needs_quotes(value):
             return value
         elif self.is_symbol(value):
             return "'" + value + "'"
@@ -1073,7 +1092,7 @@ class PDSLabelEncoder(ODLEncoder):
         which typically means that they are double-quoted and not
         single-quoted.
         """
-        if self.decoder.is_identifier(value):
+        if not self.needs_quotes(value):
             return value
         elif self.is_symbol(value) and self.symbol_single_quote:
             return "'" + value + "'"
